@@ -260,6 +260,32 @@ class Program:
     def subclasses(self, ci: ClassInfo) -> List[ClassInfo]:
         return [c for c in self.classes.values() if c is not ci and ci in self.mro(c)]
 
+    def residual_helpers(self, fn: FuncInfo) -> List[str]:
+        """Names of repo functions called (directly) by fn that do not exist on the pinned tree: helpers introduced by
+        a later edit that the normaliser could not inline."""
+        cache = self.__dict__.setdefault("_residual", {})
+        if fn.qualname in cache:
+            return cache[fn.qualname]
+        from gcmstatic.normalize import load_vocabulary
+        vocab = self.__dict__.setdefault("_vocab", load_vocabulary())
+        out = []
+        if vocab:
+            new = {}
+            for q, f in self.functions.items():
+                if q not in vocab and not (f.parent is not None and f.parent.qualname in vocab and False):
+                    new.setdefault(f.name, q)
+            if new:
+                for n in ast.walk(fn.node):
+                    if isinstance(n, ast.Call):
+                        nm = n.func.attr if isinstance(n.func, ast.Attribute) else (n.func.id if isinstance(n.func, ast.Name) else None)
+                        if nm in new and new[nm] != fn.qualname:
+                            # a nested function of fn itself is part of fn
+                            if self.functions[new[nm]].parent is fn:
+                                continue
+                            out.append(nm)
+        cache[fn.qualname] = sorted(set(out))
+        return cache[fn.qualname]
+
     def all_functions(self) -> Iterator[FuncInfo]:
         return iter(self.functions.values())
 
